@@ -24,6 +24,39 @@ use std::{cell::Cell, time::Instant};
 use engine::Ctx;
 use serde_json::{json, Value};
 
+/// Counting allocator: the largest single allocation since the last reset. A request whose size is
+/// proportional to an index taken from the input (C17: "indices outside the tables") shows up here
+/// long before it exhausts memory.
+pub struct CountingAlloc;
+pub static MAX_ALLOC: std::sync::atomic::AtomicUsize = std::sync::atomic::AtomicUsize::new(0);
+#[allow(unsafe_code)]
+unsafe impl std::alloc::GlobalAlloc for CountingAlloc {
+  unsafe fn alloc(&self, l: std::alloc::Layout) -> *mut u8 {
+    MAX_ALLOC.fetch_max(l.size(), std::sync::atomic::Ordering::Relaxed);
+    std::alloc::System.alloc(l)
+  }
+  unsafe fn dealloc(&self, p: *mut u8, l: std::alloc::Layout) {
+    std::alloc::System.dealloc(p, l)
+  }
+  unsafe fn realloc(&self, p: *mut u8, l: std::alloc::Layout, n: usize) -> *mut u8 {
+    MAX_ALLOC.fetch_max(n, std::sync::atomic::Ordering::Relaxed);
+    std::alloc::System.realloc(p, l, n)
+  }
+  unsafe fn alloc_zeroed(&self, l: std::alloc::Layout) -> *mut u8 {
+    MAX_ALLOC.fetch_max(l.size(), std::sync::atomic::Ordering::Relaxed);
+    std::alloc::System.alloc_zeroed(l)
+  }
+}
+#[global_allocator]
+static GLOBAL: CountingAlloc = CountingAlloc;
+
+pub fn reset_max_alloc() {
+  MAX_ALLOC.store(0, std::sync::atomic::Ordering::Relaxed);
+}
+pub fn max_alloc() -> usize {
+  MAX_ALLOC.load(std::sync::atomic::Ordering::Relaxed)
+}
+
 thread_local! {
   static CURRENT_CASE: Cell<*const term::Term> = const { Cell::new(std::ptr::null()) };
   static CURRENT_DESC: std::cell::RefCell<Option<String>> = const { std::cell::RefCell::new(None) };
